@@ -454,17 +454,18 @@ Qed.
 Lemma run_stays r : forall ops st te, rd_te st = Some te -> te_ok te -> forallb stays ops = true ->
   exists te', rd_te (fst (ed_run r st ops)) = Some te' /\ te_ok te' /\ te_name te' = te_name te
               /\ te_holder te' = te_holder te /\ rd_top (fst (ed_run r st ops)) = rd_top st
+              /\ te_children te' = te_children te
               /\ forall n, te_lookup te' n = spec_targets ops (te_lookup te) n.
 Proof.
   induction ops as [|o ops IH]; intros st te Hte Hok Hs; cbn [ed_run fst].
   - exists te. repeat (split; [assumption || reflexivity|]). intro n. reflexivity.
   - cbn [forallb] in Hs. apply andb_true_iff in Hs as [So Hs]. destruct (ed_step r st o) as [st'|] eqn:S.
-    + destruct (step_stays r st te o st' Hte Hok So S) as (te1 & Hte1 & Hok1 & Hn1 & Hh1 & _ & Htop1 & Hl1).
-      destruct (IH st' te1 Hte1 Hok1 Hs) as (te' & H1 & H2 & H3 & H4 & H5 & H6).
+    + destruct (step_stays r st te o st' Hte Hok So S) as (te1 & Hte1 & Hok1 & Hn1 & Hh1 & Hc1 & Htop1 & Hl1).
+      destruct (IH st' te1 Hte1 Hok1 Hs) as (te' & H1 & H2 & H3 & H4 & H5 & Hc & H6).
       destruct (ed_run r st' ops) as [s out]. cbn [fst] in *. exists te'.
-      split; [exact H1|]. split; [exact H2|]. split; [congruence|]. split; [congruence|]. split; [congruence|].
+      split; [exact H1|]. split; [exact H2|]. split; [congruence|]. split; [congruence|]. split; [congruence|]. split; [congruence|].
       intro n. rewrite H6. cbn [spec_targets fold_left]. apply spec_targets_ext. exact Hl1.
-    + destruct (IH st te Hte Hok Hs) as (te' & H1 & H2 & H3 & H4 & H5 & H6).
+    + destruct (IH st te Hte Hok Hs) as (te' & H1 & H2 & H3 & H4 & H5 & Hc & H6).
       destruct (ed_run r st ops) as [s out]. cbn [fst] in *. exists te'. repeat (split; [assumption|]).
       intro n. rewrite H6. cbn [spec_targets fold_left]. apply spec_targets_ext. intro x. symmetry.
       apply (refused_stays r st te o Hte So S).
@@ -494,7 +495,7 @@ Proof.
   intros Hte Hs Hsign n. unfold ed_program_sign in Hsign. rewrite run_app in Hsign.
   assert (te_ok te0) as Hok0.
   { pose proof (run_ok r pre red_new I) as H. unfold st_ok in H. rewrite Hte in H. exact H. }
-  destruct (run_stays r seg _ te0 Hte Hok0 Hs) as (te' & H1 & H2 & H3 & H4 & H5 & H6).
+  destruct (run_stays r seg _ te0 Hte Hok0 Hs) as (te' & H1 & H2 & H3 & H4 & H5 & _ & H6).
   unfold ed_at_sign in Hsign. rewrite H1 in Hsign.
   set (st' := fst (ed_run r (fst (ed_run r red_new pre)) seg)) in *.
   destruct (rd_sv st'); [|discriminate]. destruct (rd_sexp st'); [|discriminate].
@@ -559,4 +560,71 @@ Proof.
   - destruct cs; vm_compute in Ess; injection Ess as <-; vm_compute; discriminate.
   - exists tg, sn, ts, srv, w. split; [reflexivity|]. split; [exact Hw|].
     destruct cs; vm_compute in E; injection E as <- <- <- <-; repeat split; vm_compute; reflexivity.
+Qed.
+
+(* ---------------------------------------------------------------------------------------- *)
+(* C17 on the model of the editing operations: an update - from_repo, new versions and expirations, targets
+   added or removed, sign - leaves the delegation structure, every delegated role's document and its
+   signatures as they were, and changes the top-level targets by exactly the additions and removals made *)
+Definition plain (o : edop) : bool :=
+  match o with
+  | OpAdd _ _ | OpRemove _ | OpClear | OpTargetsVersion _ | OpTargetsExpires _
+  | OpSnapshotVersion _ | OpSnapshotExpires _ | OpTimestampVersion _ | OpTimestampExpires _ => true
+  | _ => false
+  end.
+Lemma plain_stays o : plain o = true -> stays o = true.
+Proof. destruct o; cbn; congruence. Qed.
+
+Lemma step_plain r st te o st' :
+  rd_te st = Some te -> plain o = true -> ed_step r st o = Some st' ->
+  exists te', rd_te st' = Some te' /\ te_dkeys te' = te_dkeys te /\ te_new_roles te' = te_new_roles te.
+Proof.
+  intros Hte Hp H. destruct o; try discriminate Hp; cbn [ed_step] in H; rewrite ?Hte in H; inversion H; subst; clear H;
+    eexists; (split; [reflexivity|]); cbn; try rewrite Hte; split; reflexivity.
+Qed.
+
+Lemma run_plain r : forall ops st te, rd_te st = Some te -> forallb plain ops = true ->
+  exists te', rd_te (fst (ed_run r st ops)) = Some te' /\ te_dkeys te' = te_dkeys te /\ te_new_roles te' = te_new_roles te.
+Proof.
+  induction ops as [|o ops IH]; intros st te Hte Hp; cbn [ed_run fst].
+  - exists te. repeat split; assumption.
+  - cbn [forallb] in Hp. apply andb_true_iff in Hp as [Po Hp]. destruct (ed_step r st o) as [st'|] eqn:S.
+    + destruct (step_plain r st te o st' Hte Po S) as (te1 & Hte1 & Hd1 & Hn1).
+      destruct (IH st' te1 Hte1 Hp) as (te' & H1 & H2 & H3). destruct (ed_run r st' ops) as [s out]. cbn [fst] in *.
+      exists te'. split; [exact H1|]. split; congruence.
+    + destruct (IH st te Hte Hp) as (te' & H1 & H2 & H3). destruct (ed_run r st ops) as [s out]. cbn [fst] in *.
+      exists te'. repeat split; assumption.
+Qed.
+
+Lemma forallb_plain_stays ops : forallb plain ops = true -> forallb stays ops = true.
+Proof.
+  induction ops as [|o ops IH]; cbn [forallb]; [reflexivity|]. intro H. apply andb_true_iff in H as [H1 H2].
+  rewrite (plain_stays o H1), (IH H2). reflexivity.
+Qed.
+
+Theorem update_preserves_tree r st top st1 seg keys ss :
+  rd_top st = Some top ->
+  ed_step r st OpFromRepo = Some st1 ->
+  forallb plain seg = true ->
+  ed_at_sign (fst (ed_run r st1 seg)) keys = Some ss ->
+  ss_children ss = en_children top
+  /\ ss_dkeys ss = en_dkeys top
+  /\ forall n, lookup_target n (e_entries (ss_edit ss)) = spec_targets seg (fun x => lookup_target x (en_entries top)) n.
+Proof.
+  intros Htop H1 Hp Hss. cbn [ed_step] in H1. rewrite Htop in H1. inversion H1; subst st1; clear H1.
+  set (te0 := ted_from name_targets_role HRoot top) in *.
+  set (st1 := {| rd_sv := None; rd_sexp := None; rd_tsv := None; rd_tsexp := None; rd_te := Some te0; rd_top := Some top |}) in *.
+  destruct (run_plain r seg st1 te0 eq_refl Hp) as (te' & G1 & G2 & G3).
+  destruct (run_stays r seg st1 te0 eq_refl I (forallb_plain_stays seg Hp)) as (te2 & K1 & K2 & K3 & K4 & K5 & Kc & K6).
+  rewrite G1 in K1. inversion K1; subst te2; clear K1.
+  unfold ed_at_sign in Hss. rewrite G1 in Hss.
+  set (stf := fst (ed_run r st1 seg)) in *.
+  destruct (rd_sv stf); [|discriminate]. destruct (rd_sexp stf); [|discriminate].
+  destruct (rd_tsv stf); [|discriminate]. destruct (rd_tsexp stf); [|discriminate].
+  destruct (bytes_eqb (te_name te') name_targets_role); [|discriminate].
+  destruct (te_version te'); [|discriminate]. destruct (te_expires te'); [|discriminate].
+  inversion Hss; subst ss; clear Hss. cbn [ss_children ss_dkeys ss_edit e_entries].
+  rewrite Kc, G2, G3. unfold te0. cbn [ted_from te_children te_new_roles te_dkeys]. rewrite app_nil_r.
+  split; [reflexivity|]. split; [reflexivity|]. intro x0. fold (te_entries te'). fold (te_lookup te' x0). rewrite K6.
+  apply spec_targets_ext. intro x. unfold te_lookup, te_entries, te0. cbn [ted_from te_existing te_new]. reflexivity.
 Qed.
